@@ -115,11 +115,20 @@ def run(tier, seed):
         if sf.snapshot(Hr, res2['solver'], res2['ok'], res2['exc']) != base and (base[0] != 'abort'):
             probs.append('attempt-order permutation changes the result of a real return')
         # (2) everything from the file, shuffled; nothing prompted
-        items = list(fin.items())
+        # what the user typed (not what the store holds afterwards: a store that rewrites an answer is exactly what must show)
+        typed = {name: ans for (name, ans, _needed) in res['policy'].asked if ans is not None}
+        items = list(typed.items()) if typed else list(fin.items())
         rng.shuffle(items)
-        res3 = scenarios.run_scenario(Hr, year, forms, sseed, prof, initial=dict(items), refuse_after=0)
-        if base[0] != 'abort' and sf.snapshot(Hr, res3['solver'], res3['ok'], res3['exc']) != base:
-            probs.append('supplying the prompted answers in a (shuffled) file instead changes the result')
+        if base[0] != 'abort':
+            res3 = scenarios.run_scenario(Hr, year, forms, sseed, prof, initial=dict(items), refuse_after=0)
+            if sf.snapshot(Hr, res3['solver'], res3['ok'], res3['exc']) != base:
+                probs.append('supplying the prompted answers in a (shuffled) file instead changes the result')
+        else:
+            # the prompted run aborted: the answers given so far come from the file now, the rest is still prompted - it must abort the same way
+            res3 = scenarios.run_scenario(Hr, year, forms, sseed, prof, initial=dict(items))
+            if res3['exc'] is None or type(res3['exc']) is not type(res['exc']):
+                probs.append('a run that aborts with %s when the answers are typed at the prompt ends with %s when the same answers come from the file' % (
+                    type(res['exc']).__name__, type(res3['exc']).__name__ if res3['exc'] is not None else 'a verdict'))
         # (3) request order
         if len(forms) > 1:
             res4 = scenarios.run_scenario(Hr, year, list(reversed(forms)), sseed, prof)
